@@ -83,6 +83,32 @@ fn probe(seen: &mut Seen, ctx: &Ctx, _rng: &mut Rng, out: &mut Streams, dist: &m
       out.emit(&format!("ix.oracle.envwf {h} {}", shape.join(" ")), "true");
       dist.hit("oracle_envwf");
     }
+    if h >= seen.next_height {
+      // C03's last clause on ground truth (the real parser's flags, the generator's values):
+      // revealed on a zero-value input, or carrying an unrecognized even field => unbound
+      for tx in block.txdata.iter().skip(1) {
+        let txid = tx.compute_txid();
+        for (k, env) in ParsedEnvelope::from_transaction(tx).iter().enumerate() {
+          let even = env.payload.unrecognized_even_field;
+          let prev = tx.input[env.input as usize].previous_output;
+          let value = ctx.g.txs.get(&prev.txid).and_then(|(t, _)| t.output.get(prev.vout as usize)).map(|o| o.value.to_sat());
+          let Some(value) = value else { continue };
+          let id = ord::InscriptionId { txid, index: k as u32 };
+          let Some(entry) = index.get_inscription_entry(id).unwrap() else { continue };
+          let sp = index.get_inscription_satpoint_by_id(id).unwrap();
+          out.emit(
+            &format!("ix.oracle.unbound {id} {} {} {} {} {}", u8::from(even), u8::from(value == 0), entry.charms, opt(entry.sat.map(|s| s.n())), opt(sp)),
+            "true",
+          );
+          if even {
+            dist.hit("oracle_unbound_even_field");
+          }
+          if value == 0 {
+            dist.hit("oracle_unbound_zero_input");
+          }
+        }
+      }
+    }
   }
   seen.next_height = height + 1;
 
